@@ -864,7 +864,12 @@ def topologicalSort(graph, verbose=False, checkCycles=False):
             return -1
         if b is None:
             return 1
-        return cmp(a, b)
+        # an unresolved dependency is a Product with version (and flavor) None, which cannot be
+        # compared with the string of a declared version of the same product; use a total key
+        try:
+            return cmp((a.name, a.version or "", a.flavor or ""), (b.name, b.version or "", b.flavor or ""))
+        except AttributeError:
+            return cmp(a, b)
 
     while True:
         ordered = set(item for item, dep in graph.items() if not dep)
